@@ -55,5 +55,5 @@ Theorem C06_export_record : forall sat n fs,
   exportD sat (S n) (DRec fs) =
   fold_right (fun kf acc => combine (fst kf) (field_result sat n (snd kf)) acc) (inl (JObj [])) fs.
 Proof. exact export_rec. Qed.
-Theorem C06_export_conflict : forall sat n, exportD sat n DTop = inr [ENonMergeable].
+Theorem C06_export_conflict : forall sat n, exportD sat n DTop = inr conflict_errs.
 Proof. exact export_top. Qed.
